@@ -486,6 +486,15 @@ func (c *Conn) loadSession(hello *clientHelloMsg) (
 			return nil, nil, nil, nil
 		}
 
+		// [UTLS SECTION START]
+		// RFC 7627, Section 5.3: a session negotiated with extended_master_secret
+		// must not be offered by a ClientHello that lacks the extension (the server
+		// MUST abort). ClientHelloSpecs sharing one cache may differ in that.
+		if session.extMasterSecret && !c.utlsHelloCarriesEMS(hello) {
+			return nil, nil, nil, nil
+		}
+		// [UTLS SECTION END]
+
 		hello.sessionTicket = session.ticket
 		return
 	}
@@ -555,6 +564,32 @@ func (c *Conn) loadSession(hello *clientHelloMsg) (
 
 	return
 }
+
+// [UTLS SECTION START]
+
+// utlsHelloCarriesEMS reports whether the ClientHello about to be sent carries
+// the extended_master_secret extension. For a hello marshaled from a uTLS
+// extension list, hello.extendedMasterSecret is always true, so the list
+// itself is consulted.
+func (c *Conn) utlsHelloCarriesEMS(hello *clientHelloMsg) bool {
+	sc := c.utls.sessionController
+	if sc == nil || sc.uconnRef == nil || sc.uconnRef.ClientHelloID == HelloGolang {
+		return hello.extendedMasterSecret
+	}
+	for _, ext := range sc.uconnRef.Extensions {
+		switch e := ext.(type) {
+		case *ExtendedMasterSecretExtension:
+			return true
+		case *GenericExtension:
+			if e.Id == extensionExtendedMasterSecret {
+				return true
+			}
+		}
+	}
+	return false
+}
+
+// [UTLS SECTION END]
 
 func (c *Conn) pickTLSVersion(serverHello *serverHelloMsg) error {
 	peerVersion := serverHello.vers
